@@ -8,6 +8,7 @@ import (
 
 	"github.com/cloudwego/gopkg/bufiox"
 	"github.com/cloudwego/gopkg/protocol/thrift"
+	"github.com/cloudwego/gopkg/protocol/thrift/base"
 	"github.com/cloudwego/gopkg/verifharness/evid"
 	"github.com/cloudwego/gopkg/verifharness/faultio"
 	"pgregory.net/rapid"
@@ -21,7 +22,8 @@ type IndepCase struct {
 	Mode []int `json:"mode"` // per value: 0 Binary.ReadString, 1 Binary.ReadBinary, 2 BufferReader.ReadBinary, 3 BufferReader.ReadString (bytes reader), 4/5 same over a stream reader, 6 method name from BufferReader.ReadMessageBegin,
 	// 8 message headers cut inside the sequence id / the name (the decode fails, nothing is kept), 9 a BufferReader.ReadBinary whose data
 	// is cut short (fails; the slice it returns is kept and written to at the end), 10 a nested payload: a binary is decoded and a string is
-	// then decoded out of that returned slice (both kept; the outer slice is overwritten at the end)
+	// then decoded out of that returned slice (both kept; the outer slice is overwritten at the end), 11 an ApplicationException / Base whose
+	// FastRead decodes the string and then fails on a later field (what the receiver holds is kept)
 }
 
 type keptVal struct {
@@ -113,6 +115,29 @@ func runIndep(c *IndepCase) (out [][]byte, v *evid.Violation) {
 			}
 			kept = append(kept, keptVal{b: outer, isB: true, want: append([]byte(nil), in...), idx: i})
 			k.s, _, err = thrift.Binary.ReadString(outer)
+		case 11:
+			// a struct whose first string field is decoded and whose body is then rejected (an unknown string
+			// field with a negative size): whatever string the receiver holds afterwards is the caller's to read,
+			// and must not change when the input is reused
+			body := append(append([]byte{0x0b, 0, 1}, in...), 0x0b, 0, 9, 0xff, 0xff, 0xff, 0xff, 0)
+			var held string
+			if i%2 == 0 {
+				var ae thrift.ApplicationException
+				if _, e := ae.FastRead(body); e == nil {
+					return nil, evid.Failf("decode %d: ApplicationException.FastRead accepted a field with a negative size", i)
+				}
+				held = ae.Msg()
+			} else {
+				var bs base.Base
+				if _, e := bs.FastRead(body); e == nil {
+					return nil, evid.Failf("decode %d: Base.FastRead accepted a field with a negative size", i)
+				}
+				held = bs.LogID
+			}
+			k.s, k.want = held, []byte(held) // a snapshot of what the receiver holds right after the failed read
+			for j := range body {
+				body[j] = 0xEE
+			}
 		case 0:
 			k.s, _, err = thrift.Binary.ReadString(in)
 		case 1:
@@ -461,12 +486,12 @@ func genIndepCase(t *rapid.T) IndepCase {
 			c.Lens = append(c.Lens, rapid.OneOf(rapid.SampledFrom(indepLens), rapid.IntRange(0, 3000)).Draw(t, "len"))
 		}
 	}
-	c.Mode = rapid.SliceOfN(rapid.IntRange(0, 10), 1, 7).Draw(t, "modes")
+	c.Mode = rapid.SliceOfN(rapid.IntRange(0, 11), 1, 7).Draw(t, "modes")
 	return c
 }
 
 func TestC16_Random(t *testing.T) {
-	rec := evid.New("C16", "c16_random", "rapid: runs of 1..450 decodes of strings/binaries through Binary.ReadString/ReadBinary and BufferReader.ReadString/ReadBinary (bytes-backed and stream-backed), interleaved with rejected message headers (cut inside the sequence id / the name), BufferReader.ReadBinary calls on data cut short (the slice they hand back is kept and written to later) and nested payloads (a string decoded out of a previously returned byte slice, which is overwritten later); lengths from every span-allocator class (0, 1..127, 128..255, ... 64Ki..128Ki-1, >=128Ki) incl. long runs in one class that wrap the 1 MiB span; after each decode the whole input buffer is overwritten and reused; afterwards every returned byte slice is appended to and overwritten one at a time while all other values are re-verified; each case runs with the span cache disabled and enabled and the two result lists must be equal; non-trivial = a run wrapping a span or mixing >= 3 size classes")
+	rec := evid.New("C16", "c16_random", "rapid: runs of 1..450 decodes of strings/binaries through Binary.ReadString/ReadBinary and BufferReader.ReadString/ReadBinary (bytes-backed and stream-backed), interleaved with rejected message headers (cut inside the sequence id / the name), BufferReader.ReadBinary calls on data cut short (the slice they hand back is kept and written to later) nested payloads (a string decoded out of a previously returned byte slice, which is overwritten later) and FastRead calls of ApplicationException / Base that decode the string and then reject a later field (the string left in the receiver is kept); lengths from every span-allocator class (0, 1..127, 128..255, ... 64Ki..128Ki-1, >=128Ki) incl. long runs in one class that wrap the 1 MiB span; after each decode the whole input buffer is overwritten and reused; afterwards every returned byte slice is appended to and overwritten one at a time while all other values are re-verified; each case runs with the span cache disabled and enabled and the two result lists must be equal; non-trivial = a run wrapping a span or mixing >= 3 size classes")
 	defer rec.Flush()
 	rec.Assume("the span-cache switch is a process global; it is flipped only between runs inside one goroutine, never concurrently")
 	runRapid(t, rec, "c16_independence", evid.Pick(1000, 6000), genIndepCase, checkIndep)
